@@ -259,10 +259,16 @@ func (s *Server) handleAccessSet(w http.ResponseWriter, r *http.Request) {
 		len(list.BlockedHosts),
 	)
 
-	defer s.conf.ConfigModified()
+	// Read the callback under the lock, since s.conf is replaced on
+	// reconfiguration, but call it after the lock is released, since it reads
+	// the configuration back.
+	var configModified func()
+	defer func() { configModified() }()
 
 	s.serverLock.Lock()
 	defer s.serverLock.Unlock()
+
+	configModified = s.conf.ConfigModified
 
 	s.conf.AllowedClients = list.AllowedClients
 	s.conf.DisallowedClients = list.DisallowedClients
